@@ -111,15 +111,20 @@ def run_sets(sets, spellings, log=lambda *a: None):
             lines.append(f'    pub async fn h{k}(&mut self) -> Result<(), Error> {{ self.hits[{k}] += 1; Ok(()) }}')
         lines.append('}')
         lines.append('}')
-    lines.append('fn main() {')
-    lines.append('    let mut out: heapless::Vec<u8, 64> = heapless::Vec::new();')
+    # one function per set (a single main with thousands of blocks overflows its stack frame in a dev build)
     for i, st in enumerate(sets):
+        lines.append(f'#[inline(never)] fn run_{i}(out: &mut heapless::Vec<u8, 64>) {{')
         for k, sps in enumerate(spellings[i]):
             for sp in sps:
                 lit = json.dumps(sp + '\n')
-                lines.append(f'    {{ let mut d = m{i}::D::new(); out.clear(); let rem = block_on(d.run({lit}.as_bytes(), &mut out)).len();')
+                lines.append(f'    {{ let mut d = m{i}::D::new(); out.clear(); let rem = block_on(d.run({lit}.as_bytes(), out)).len();')
                 lines.append(f'      let ok = d.hits.iter().sum::<u32>() == 1 && d.hits[{k}] == 1 && d.nerr == 0 && rem == 0;')
                 lines.append(f'      if !ok {{ println!("{{{{\\"set\\": {i}, \\"decl\\": {k}, \\"spelling\\": {{:?}}, \\"hits\\": {{:?}}, \\"errors\\": {{}}, \\"rem\\": {{}}}}}}", {json.dumps(sp)}, d.hits, d.nerr, rem); }} }}')
+        lines.append('}')
+    lines.append('fn main() {')
+    lines.append('    let mut out: heapless::Vec<u8, 64> = heapless::Vec::new();')
+    for i in range(len(sets)):
+        lines.append(f'    run_{i}(&mut out);')
     lines.append('    println!("DONE");')
     lines.append('}')
     with open(os.path.join(d, 'Cargo.toml'), 'w') as f:
